@@ -381,7 +381,7 @@ def _cap_as(soft, hard):
     try:
         if hard != resource.RLIM_INFINITY and soft > hard:
             soft = hard
-        _cap_as(soft, hard)
+        resource.setrlimit(resource.RLIMIT_AS, (soft, hard))
     except (ValueError, OSError):
         pass
 
